@@ -20,6 +20,8 @@ type recPlatform struct {
 	YieldAt []int
 	Inputs  []string
 	y       *recYielder
+	// onEffect, when set, is called for every recorded effect.
+	onEffect func(e []any)
 }
 
 type recYielder struct {
@@ -29,6 +31,7 @@ type recYielder struct {
 	stopped bool
 	// afterStop counts yields that happen after the flag was raised.
 	afterStop int
+	onRaise   func()
 }
 
 func (y *recYielder) Yield() {
@@ -39,6 +42,9 @@ func (y *recYielder) Yield() {
 	if y.stopAt > 0 && y.n == y.stopAt && y.ev != nil {
 		y.ev.Stopped = true
 		y.stopped = true
+		if y.onRaise != nil {
+			y.onRaise()
+		}
 	}
 }
 
@@ -49,6 +55,9 @@ func newRecPlatform(inputs []string, stopAt int) *recPlatform {
 func (p *recPlatform) add(e ...any) {
 	p.Effects = append(p.Effects, e)
 	p.YieldAt = append(p.YieldAt, p.y.n)
+	if p.onEffect != nil {
+		p.onEffect(e)
+	}
 }
 
 func (p *recPlatform) Print(s string) { p.add("print", s) }
